@@ -1016,23 +1016,16 @@ func maySucceedWithout(r *core.Run, fn *ssa.Function, group []ssa.Instruction) s
 		}
 		return false
 	}
-	for _, x := range errorExits(fn) {
-		ev := core.BlockLocalLoad(x.val)
-		at := x.ret.Block()
-		if x.via != nil {
-			at = x.via
+	// path by path (flags, merged results and named results kept in memory are followed, the outcome
+	// of every nil test taken is remembered): what is the error when a return is reached on a path
+	// that avoids the mutation?
+	for ret, ev := range returnedErrors(fn) {
+		outs, complete := core.PathOutcomes(ret, ev, inGroup)
+		if !complete {
+			return pos(r, ret) + " (exploration cut off)"
 		}
-		if !definitelyNil(r, ev) {
-			if core.NilnessAt(ev, at) == core.NonNil {
-				continue
-			}
-			nonNil := false
-			for _, g := range x.guards {
-				if isNil, known := core.ErrNilFact(g, ev); known && !isNil {
-					nonNil = true
-				}
-			}
-			if nonNil {
+		for _, o := range outs {
+			if o.NonNil {
 				continue
 			}
 			own := false
@@ -1041,23 +1034,17 @@ func maySucceedWithout(r *core.Run, fn *ssa.Function, group []ssa.Instruction) s
 				if !isCall {
 					continue
 				}
-				if e := core.ErrorResult(c); e != nil && (e == ev || carries(ev, e)) {
+				if e := core.ErrorResult(c); e != nil && (e == o.Val || carries(o.Val, e)) {
 					own = true
 				}
-				if ssa.Value(c) == ev { // `return tx.DeleteBucket(name)`
+				if ssa.Value(c) == o.Val {
 					own = true
 				}
 			}
 			if own {
 				continue
 			}
-		}
-		var target ssa.Instruction = x.ret
-		if x.via != nil {
-			target = x.via.Instrs[len(x.via.Instrs)-1]
-		}
-		if core.ReachableFromEntryAvoiding(target, inGroup) {
-			return pos(r, x.ret)
+			return pos(r, ret)
 		}
 	}
 	return ""
